@@ -26,8 +26,9 @@ definitions of harness/gates.py as they were constructed.  One case here is a sh
                 a syntax error in the middle of a nested program.  They are NOT judged (any exception or result is
                 fine, they only have to return); the VALID calls that follow - same circuit, another circuit, either
                 entry point, the same backend object - are, and must behave as in a fresh process.
-                Cases with a bad_* step run in a forked child so that whatever they leave behind cannot reach the
-                other cases (or the process of the check), and replay is deterministic.
+                Cases with a bad_* step run in forked children (25 per child; when any check of such a batch fails,
+                every case of the batch is run again in a child of its own) so that whatever they leave behind cannot
+                reach the other cases or the process of the check, and a reported failure replays deterministically.
 
 Programs: nestings of loops (literal / let-valued / overridden counts, 0 and 1 often), top-level blocks, subcircuit
 blocks and prepare_all..measure_all sections, with the Python traps built in: EMPTY blocks / loop bodies /
